@@ -3,7 +3,7 @@
 #define VERIF_HOOKS_HPP
 #include <vector>
 namespace vhook {
-struct FaultState { std::vector<int> plan; long calls = 0; };
+struct FaultState { std::vector<int> plan; long calls = 0; void (*on_call)(long k, bool fail) = nullptr; };
 inline FaultState& fs() { static FaultState F; return F; }
 inline void reset_fault_plan() { fs().plan.clear(); fs().calls = 0; }
 inline void set_fault_plan(const std::vector<int>& p) { fs().plan = p; fs().calls = 0; }
@@ -14,7 +14,9 @@ inline bool inject_factor_failure()
 {
     auto& F = ::vhook::fs();
     long k = F.calls++;
-    return k < (long) F.plan.size() && F.plan[k] != 0;
+    bool fail = k < (long) F.plan.size() && F.plan[k] != 0;
+    if (F.on_call) F.on_call(k, fail);
+    return fail;
 }
 } }
 #endif
